@@ -70,8 +70,11 @@ var c29markers = [][]byte{[]byte("kraken/utils/dedup"), []byte("kraken/lib/blobr
 
 var c29dump = make([]byte, 1<<20)
 
-// c29quietNow: in one consistent snapshot, is every goroutine (other than the caller) that has
-// a frame of the packages under test blocked?
+// c29quietNow: in one consistent (stop-the-world) snapshot, is every goroutine other than the
+// caller unable to continue by itself?  A goroutine with a frame of the packages under test must be
+// waiting for another goroutine (channel, select, sync primitive): anything else - running,
+// runnable, syscall, IO wait, sleep, GC assist wait ... - can go on without the driver.  Any other
+// goroutine must not be running or runnable (it could be about to release a lock one of ours needs).
 func c29quietNow(self int64) bool {
 	var n int
 	for {
@@ -98,6 +101,12 @@ func c29quietNow(self int64) bool {
 		if id == self {
 			continue
 		}
+		lb := bytes.IndexByte(hdr, '[')
+		rb := bytes.IndexAny(hdr, ",]")
+		if lb < 0 || rb < lb {
+			return false
+		}
+		st := string(hdr[lb+1 : rb])
 		mine := false
 		for _, m := range c29markers {
 			if bytes.Contains(blk, m) {
@@ -106,28 +115,30 @@ func c29quietNow(self int64) bool {
 			}
 		}
 		if !mine {
+			if st == "running" || st == "runnable" {
+				return false
+			}
 			continue
 		}
-		lb := bytes.IndexByte(hdr, '[')
-		rb := bytes.IndexAny(hdr, ",]")
-		if lb < 0 || rb < lb {
-			return false
-		}
-		switch string(hdr[lb+1 : rb]) {
-		case "running", "runnable", "syscall", "preempted", "copystack", "idle":
+		if !(strings.HasPrefix(st, "chan ") || strings.HasPrefix(st, "select") ||
+			strings.HasPrefix(st, "sync.") || strings.HasPrefix(st, "semacquire")) {
 			return false
 		}
 	}
 	return true
 }
 
-// c29waitQuiet polls until the system is quiet; false after 20 s (the case is then inconclusive).
+// c29waitQuiet polls until two consecutive snapshots are quiet; false after 20 s (the case is then
+// inconclusive, never a verdict).
 func c29waitQuiet() bool {
 	self := c29gid()
 	deadline := time.Now().Add(20 * time.Second)
 	for i := 0; ; i++ {
 		if c29quietNow(self) {
-			return true
+			runtime.Gosched()
+			if c29quietNow(self) {
+				return true
+			}
 		}
 		if i < 50 {
 			runtime.Gosched()
@@ -169,9 +180,9 @@ const c29sec = int64(time.Second)
 // ---------------------------------------------------------------------------------------------
 
 type c29lop struct {
-	k        int // 0 tick 1 begin 2 enter 3 finish
-	c, a, b  int // begin: a=key; finish: a=out
-	dt       int64 // tick: dt; finish: ttl
+	k       int   // 0 tick 1 begin 2 enter 3 finish
+	c, a, b int   // begin: a=key; finish: a=out
+	dt      int64 // tick: dt; finish: ttl
 }
 
 func (o c29lop) coq() string {
@@ -184,6 +195,19 @@ func (o c29lop) coq() string {
 		return fmt.Sprintf("MEnter %d", o.c)
 	}
 	return fmt.Sprintf("MFinish %d %d %d", o.c, o.a, o.dt)
+}
+
+// enc is the compact form read by Run/C29_run.v (dec_lop)
+func (o c29lop) enc() string {
+	switch o.k {
+	case 0:
+		return strconv.FormatInt(4*o.dt, 10)
+	case 1:
+		return strconv.FormatInt(int64(1+4*(o.c+16*o.a)), 10)
+	case 2:
+		return strconv.FormatInt(int64(2+4*o.c), 10)
+	}
+	return strconv.FormatInt(3+4*(int64(o.c)+16*(int64(o.a)+256*o.dt)), 10)
 }
 
 func (o c29lop) kind() string { return [...]string{"LTick", "LBegin", "LEnter", "LFinish"}[o.k] }
@@ -290,33 +314,43 @@ func (s *c29lim) apply(o c29lop) bool {
 	return c29waitQuiet()
 }
 
-func (s *c29lim) snap() ([]int32, string) {
+func (s *c29lim) snap() ([]int32, string, string) {
 	var sts []int32
 	var xs []string
+	code, mul := uint64(0), uint64(1)
 	for _, th := range s.th {
 		st := atomic.LoadInt32(&th.st)
 		sts = append(sts, st)
+		var c uint64
 		switch st {
 		case lsIdle:
 			xs = append(xs, "SIdle")
+			c = 0
 		case lsHook:
 			xs = append(xs, "SHook")
+			c = 4
 		case lsRunner:
 			xs = append(xs, fmt.Sprintf("SRun %d", th.runKey))
+			c = uint64(4*(th.runKey&63) + 1)
 		case lsDone:
 			xs = append(xs, fmt.Sprintf("SDone %d", th.out))
+			c = uint64(4*(th.out&63) + 2)
 		default:
 			xs = append(xs, "SWait")
+			c = 8
 		}
+		code += c * mul
+		mul *= 256
 	}
-	return sts, verifhlib.List(xs)
+	return sts, verifhlib.List(xs), strconv.FormatUint(code, 10)
 }
 
 // c29limCase runs a schedule; `next` is asked for the following operation given what every
 // thread is doing (nil: stop); a drain follows so that every caller returns.
 type c29limOut struct {
 	ops    []c29lop
-	obs    []string
+	obs    []string // readable
+	enc    []string // compact
 	starts int
 	begins int
 	twoRun bool
@@ -327,7 +361,7 @@ func c29limRun(n int, next func(step int, sts []int32, keys []int) *c29lop) c29l
 	s := c29newLim(n)
 	defer dedup.VerifSetYieldHook(nil)
 	var res c29limOut
-	sts, _ := s.snap()
+	sts, _, _ := s.snap()
 	outCtr := 0
 	do := func(o c29lop) bool {
 		before := sts
@@ -335,10 +369,11 @@ func c29limRun(n int, next func(step int, sts []int32, keys []int) *c29lop) c29l
 			res.incon = true
 			return false
 		}
-		var so string
-		sts, so = s.snap()
+		var so, se string
+		sts, so, se = s.snap()
 		res.ops = append(res.ops, o)
 		res.obs = append(res.obs, so)
+		res.enc = append(res.enc, se)
 		if o.k == 1 {
 			res.begins++
 		}
@@ -411,12 +446,13 @@ func c29limRun(n int, next func(step int, sts []int32, keys []int) *c29lop) c29l
 }
 
 func c29limEmit(ctx *verifhlib.Ctx, n int, r c29limOut, kind string) {
-	var ops, hist []string
+	var ops, eops, hist []string
 	for _, o := range r.ops {
 		ops = append(ops, o.coq())
+		eops = append(eops, o.enc())
 		hist = append(hist, o.kind())
 	}
-	coq := fmt.Sprintf("CLim %d %s %s", n, verifhlib.List(ops), verifhlib.List(r.obs))
+	coq := fmt.Sprintf("CLim %d %s %s", n, verifhlib.List(eops), verifhlib.List(r.enc))
 	var tags []string
 	if r.twoRun {
 		tags = append(tags, "two-executions-in-flight")
@@ -619,6 +655,24 @@ func (o c29rop) coq() string {
 	return fmt.Sprintf("QFinish %d %s %s", o.c, res, nx)
 }
 
+// enc is the compact form read by Run/C29_run.v (dec_rop)
+func (o c29rop) enc() string {
+	switch o.k {
+	case 0:
+		return strconv.FormatInt(4*o.dt, 10)
+	case 1:
+		return strconv.FormatInt(int64(1+4*(o.c+16*o.a)), 10)
+	}
+	res := 0
+	if o.a != 0 {
+		res = 2 * o.a
+		if o.a == 1 {
+			res++
+		}
+	}
+	return strconv.FormatInt(int64(2+4*(o.c+16*(res+8*(o.next+1)))), 10)
+}
+
 func (o c29rop) kind() string { return [...]string{"RTick", "RStart", "RFinish"}[o.k] }
 
 const (
@@ -630,10 +684,11 @@ const (
 )
 
 type c29rthread struct {
-	st  int32
-	key int
-	ret string
-	fin chan error
+	st   int32
+	key  int
+	ret  string // readable result of Start
+	retc uint64 // its compact status code
+	fin  chan error
 }
 
 // error ids: 1 = the error the not-found matcher recognises, 2.. = other errors
@@ -791,6 +846,22 @@ type c29rc struct {
 	th  []*c29rthread
 }
 
+// c29retCode: compact status code (dec_rst) of a readable Start result
+func c29retCode(ret string) uint64 {
+	switch ret {
+	case "RPending":
+		return 8
+	case "RBusy":
+		return 12
+	}
+	var e int
+	fmt.Sscanf(ret, "(RErr %d)", &e)
+	if e > 63 {
+		e = 63
+	}
+	return uint64(4*e + 1)
+}
+
 func (s *c29rc) apply(o *c29rop) bool {
 	o.next = -1
 	switch o.k {
@@ -813,6 +884,7 @@ func (s *c29rc) apply(o *c29rop) bool {
 			})
 			if err != nil {
 				th.ret = s.sys.code(err)
+				th.retc = c29retCode(th.ret)
 				atomic.StoreInt32(&th.st, rsRet)
 			}
 		}()
@@ -845,29 +917,53 @@ func (s *c29rc) apply(o *c29rop) bool {
 		}
 		return true
 	}
-	return c29waitQuiet()
+	if !c29waitQuiet() {
+		return false
+	}
+	if _, via := s.sys.(*c29viaRefresher); via && o.k == 1 {
+		// Refresh never blocks (10000 workers; Stat and the store are local): a caller that looks
+		// blocked is inside a lock or file operation of the store, so wait for it to return
+		deadline := time.Now().Add(20 * time.Second)
+		for atomic.LoadInt32(&s.th[o.c].st) == rsInStart {
+			if time.Now().After(deadline) {
+				return false
+			}
+			time.Sleep(50 * time.Microsecond)
+		}
+		return c29waitQuiet()
+	}
+	return true
 }
 
-func (s *c29rc) snap() ([]int32, string) {
+func (s *c29rc) snap() ([]int32, string, string) {
 	var sts []int32
 	var xs []string
+	code, mul := uint64(0), uint64(1)
 	for _, th := range s.th {
 		st := atomic.LoadInt32(&th.st)
 		sts = append(sts, st)
+		var c uint64
 		switch st {
 		case rsIdle:
 			xs = append(xs, "QIdle")
+			c = 0
 		case rsInStart:
 			xs = append(xs, fmt.Sprintf("QBlocked %d", th.key))
+			c = uint64(4*(th.key&63) + 2)
 		case rsRet:
 			xs = append(xs, "QRet "+th.ret)
+			c = th.retc
 		case rsInR:
 			xs = append(xs, fmt.Sprintf("QRun %d", th.key))
+			c = uint64(4*(th.key&63) + 3)
 		default:
 			xs = append(xs, "QTransient")
+			c = 4
 		}
+		code += c * mul
+		mul *= 256
 	}
-	return sts, verifhlib.List(xs)
+	return sts, verifhlib.List(xs), strconv.FormatUint(code, 10)
 }
 
 type c29rcfg struct{ nf, er, clean, workers, busy int64 }
@@ -879,6 +975,7 @@ func (c c29rcfg) coq() string {
 type c29rcOut struct {
 	ops    []c29rop
 	obs    []string
+	enc    []string
 	runs   int
 	starts int
 	incon  bool
@@ -901,17 +998,18 @@ func c29rcRun(cfg c29rcfg, n int, via bool, next func(step int, sts []int32) *c2
 		s.th = append(s.th, &c29rthread{fin: make(chan error)})
 	}
 	var res c29rcOut
-	sts, _ := s.snap()
+	sts, _, _ := s.snap()
 	do := func(o c29rop) bool {
 		before := sts
 		if !s.apply(&o) {
 			res.incon = true
 			return false
 		}
-		var so string
-		sts, so = s.snap()
+		var so, se string
+		sts, so, se = s.snap()
 		res.ops = append(res.ops, o)
 		res.obs = append(res.obs, so)
+		res.enc = append(res.enc, se)
 		if o.k == 1 {
 			res.starts++
 		}
@@ -967,12 +1065,13 @@ func c29rcRun(cfg c29rcfg, n int, via bool, next func(step int, sts []int32) *c2
 }
 
 func c29rcEmit(ctx *verifhlib.Ctx, cfg c29rcfg, n int, r c29rcOut, kind string) {
-	var ops, hist []string
+	var ops, eops, hist []string
 	for _, o := range r.ops {
 		ops = append(ops, o.coq())
+		eops = append(eops, o.enc())
 		hist = append(hist, o.kind())
 	}
-	coq := fmt.Sprintf("CRc %s %d %s %s", cfg.coq(), n, verifhlib.List(ops), verifhlib.List(r.obs))
+	coq := fmt.Sprintf("CRc %s %d %s %s", cfg.coq(), n, verifhlib.List(eops), verifhlib.List(r.enc))
 	ctx.Emit(verifhlib.Case{Coq: coq, NT: r.runs >= 1 && r.starts >= 2, Kind: kind, Hist: hist, Incon: r.incon,
 		Sample: map[string]interface{}{"config": cfg.coq(), "threads": n, "ops": ops, "obs": r.obs}})
 }
@@ -1194,6 +1293,140 @@ func c29trapRandom(ctx *verifhlib.Ctx, r *verifhlib.Rng) {
 }
 
 // ---------------------------------------------------------------------------------------------
+// free-running stress (no parking): interleavings finer than the yield point
+// ---------------------------------------------------------------------------------------------
+//
+// Several goroutines call the real code concurrently while another one advances the mock clock
+// past ttl / BusyTimeout / the collector's interval; the yield hook only calls runtime.Gosched.
+// The schedule is chosen by the Go scheduler and is not reproducible from the seed; what is
+// recorded is a definite observation: the largest number of executions of one key that overlapped,
+// and whether every accepted start ran exactly once.
+
+type c29gauge struct {
+	inflight [8]int32
+	max      int32
+	runs     int32
+}
+
+func (g *c29gauge) enter(k int) {
+	n := atomic.AddInt32(&g.inflight[k], 1)
+	for {
+		m := atomic.LoadInt32(&g.max)
+		if n <= m || atomic.CompareAndSwapInt32(&g.max, m, n) {
+			break
+		}
+	}
+	atomic.AddInt32(&g.runs, 1)
+	runtime.Gosched()
+}
+
+func (g *c29gauge) leave(k int) { atomic.AddInt32(&g.inflight[k], -1) }
+
+type c29stressRunner struct{ g c29gauge }
+
+func (s *c29stressRunner) Run(input interface{}) (interface{}, time.Duration) {
+	k, _ := input.(int)
+	s.g.enter(k)
+	s.g.leave(k)
+	return k, 0
+}
+
+func c29stress(ctx *verifhlib.Ctx, r *verifhlib.Rng, limiter bool) {
+	clk := clock.NewMock()
+	var clkMu sync.Mutex // clock.Mock.Add is not atomic: concurrent Adds could move the clock backwards
+	tick := func(d time.Duration) {
+		clkMu.Lock()
+		clk.Add(d)
+		clkMu.Unlock()
+	}
+	var wg sync.WaitGroup
+	var accepted int32
+	g := &c29gauge{}
+	workers, calls := 6, 120
+	kind := "stress-requestcache"
+	if limiter {
+		kind = "stress-limiter"
+		run := &c29stressRunner{}
+		g = &run.g
+		lim := dedup.NewLimiter(clk, run)
+		dedup.VerifSetYieldHook(func(string) { runtime.Gosched() })
+		defer dedup.VerifSetYieldHook(nil)
+		for w := 0; w < workers; w++ {
+			wg.Add(1)
+			seed := r.U64()
+			go func() {
+				defer wg.Done()
+				rr := verifhlib.NewRng(seed)
+				for i := 0; i < calls; i++ {
+					switch x := rr.Intn(100); {
+					case x < 6:
+						tick(dedup.TaskGCInterval + 1)
+					case x < 12:
+						tick(1)
+					}
+					lim.Run(rr.Range(1, 2))
+				}
+			}()
+		}
+	} else {
+		rc := dedup.NewRequestCache(dedup.RequestCacheConfig{NotFoundTTL: 3, ErrorTTL: 2, CleanupInterval: 2,
+			NumWorkers: 2, BusyTimeout: 2}, clk, tally.NoopScope)
+		for w := 0; w < workers; w++ {
+			wg.Add(1)
+			seed := r.U64()
+			go func() {
+				defer wg.Done()
+				rr := verifhlib.NewRng(seed)
+				for i := 0; i < calls; i++ {
+					if rr.Chance(10) {
+						tick(time.Duration(rr.Range(1, 3)))
+					}
+					k := rr.Range(1, 3)
+					fail := rr.Chance(40)
+					err := rc.Start(fmt.Sprintf("key-%d", k), func() error {
+						g.enter(k)
+						g.leave(k)
+						if fail {
+							return c29errs[2]
+						}
+						return nil
+					})
+					if err == nil {
+						atomic.AddInt32(&accepted, 1)
+					}
+				}
+			}()
+		}
+	}
+	// callers blocked waiting for a worker need the clock to move even when all others are blocked too
+	stop := make(chan struct{})
+	done := make(chan struct{})
+	go func() {
+		defer close(done)
+		for {
+			select {
+			case <-stop:
+				return
+			default:
+				tick(1)
+			}
+		}
+	}()
+	wg.Wait()
+	close(stop)
+	<-done
+	incon := !c29waitQuiet()
+	runs := atomic.LoadInt32(&g.runs)
+	acc := atomic.LoadInt32(&accepted)
+	if limiter {
+		acc = runs
+	}
+	coq := fmt.Sprintf("CStress %d %d %d", atomic.LoadInt32(&g.max), acc, runs)
+	ctx.Emit(verifhlib.Case{Coq: coq, NT: runs >= 2, Kind: kind, Key: fmt.Sprintf("%s-%d", coq, r.U64()), Hist: []string{"Stress"}, Incon: incon,
+		Sample: map[string]interface{}{"max_overlapping_executions_of_one_key": atomic.LoadInt32(&g.max), "accepted": acc, "executions": runs}})
+}
+
+// ---------------------------------------------------------------------------------------------
 
 func c29driver(ctx *verifhlib.Ctx) {
 	if ctx.Tmp != "" {
@@ -1205,8 +1438,14 @@ func c29driver(ctx *verifhlib.Ctx) {
 	c29rcSeeds(ctx)
 	c29trapSeeds(ctx)
 	c29refresher(ctx, r, true)
+	nstress := 3
 	if thorough {
+		nstress = 30
 		c29limExhaustive(ctx, 6)
+	}
+	for i := 0; i < nstress; i++ {
+		c29stress(ctx, r.Fork(), true)
+		c29stress(ctx, r.Fork(), false)
 	}
 	for i := 0; i < ctx.N; i++ {
 		switch x := r.Intn(100); {
@@ -1220,5 +1459,4 @@ func c29driver(ctx *verifhlib.Ctx) {
 			c29refresher(ctx, r.Fork(), false)
 		}
 	}
-	_ = strings.TrimSpace
 }
